@@ -330,8 +330,9 @@ func (r *run) verifyRoot(n *Node, h uint32, fs *flatState) {
 			r.out.Probes["c03_absent_keys"]++
 		}
 	}
-	// (4) historic invocation on archival nodes
-	if !n.Local.KeepLatest && !n.Local.RemoveOld && h < n.BC.BlockHeight() && len(fs.battery) > 0 {
+	// (4) historic invocation on every node that keeps state history: archival nodes, and garbage-collecting
+	// nodes for the heights they still retain
+	if !n.Local.KeepLatest && h < n.BC.BlockHeight() && len(fs.battery) > 0 {
 		scripts := r.batteryScriptsAt(fs)
 		for i, sc := range scripts {
 			got := runScript(n, sc, h+1)
@@ -341,6 +342,9 @@ func (r *run) verifyRoot(n *Node, h uint32, fs *flatState) {
 			}
 		}
 		r.out.Probes["c03_historic_invocations"] += len(scripts)
+		if n.Local.RemoveOld {
+			r.out.Probes["c03_historic_on_gc_node"]++
+		}
 	}
 }
 
